@@ -113,6 +113,18 @@ impl RegionMetadata {
     pub(crate) fn write_if_dirty(&self, index: usize, regions: &Regions) {
         let state = &self.state;
         if state.needs_write() {
+            // Verification hook (Kani build only): the slot write is recorded as a ghost event
+            // carrying the decoded fields instead of materialising the 4 KiB encoding.
+            #[cfg(kani)]
+            if anydb_verif_platform::mmap::ghost_slot(
+                regions.mmap(),
+                index,
+                [self.start as u64, self.len as u64, self.reserved as u64],
+                self.id.as_bytes(),
+            ) {
+                state.set_needs_flush();
+                return;
+            }
             regions.write_at(index, &self.to_bytes());
             state.set_needs_flush();
         }
